@@ -183,13 +183,27 @@ def lf4(F, R):
         cbs = [(b, t) for b, t in c.calls() if (callee_of(t) or "").endswith("FnMut::call_mut")]
         for b, t in cbs:
             args = c.term_of_operand(t["args"][1], b)
-            with_name = has_sub(args, lambda q: q[0] == "agg" and q[2] and q[2].endswith("Option::Some"))
-            if with_name:
-                g1, _ = guarded(c, b, lambda g: g.kind == "variant" and g.variant == "Complete")
-                g2, _ = guarded(c, b, lambda g: g.kind == "bool" and g.term[0] == "cmp" and g.term[1] == "Eq" and g.truth is True and has_sub(g.term, lambda q: q[0] == "call" and q[1] and q[1].endswith("ShortFileName::csum")) and "Complete" in tstr(g.term))
-                g3, _ = guarded(c, b, lambda g: g.kind == "variant" and g.variant == "None" and has_sub(g.term, lambda q: q[0] == "call" and q[1] and q[1].endswith("lfn_contents")))
-                R.require(g1 and g2 and g3, c, "name-only-if-complete-and-matching", "a long name is reported without (state == Complete && csum == short name checksum) on a non-LFN entry", c.loc(b))
-                R.require("as_str" in tstr(args), c, "name=buffer", "the reported long name is not lfn_buffer.as_str()", c.loc(b))
+            # where the Option<&str> handed to the callback is built: at the call itself, or in the arms that define a local
+            sites = []
+            tup = strip_refs(args)
+            name_arg = strip_refs(tup[3][1]) if tup[0] == "agg" and len(tup[3]) == 2 else tup
+            if name_arg[0] == "var":
+                for d in c.defs().get(name_arg[1], []):
+                    if d[0] in ("assign", "call"):
+                        sites.append((d[1], c.term_of_rvalue(d[3], d[1]) if d[0] == "assign" else c.call_term(d[2], d[1])))
+            else:
+                sites.append((b, args))
+            for (sb, sv) in sites:
+                with_name = has_sub(sv, lambda q: q[0] == "agg" and q[2] and q[2].endswith("Option::Some"))
+                is_none = strip_refs(sv)[0] == "agg" and strip_refs(sv)[2] and strip_refs(sv)[2].endswith("Option::None")
+                if not with_name and not is_none and name_arg[0] == "var":
+                    R.bad(c, "name-opaque", "the long name handed to the callback is computed in a way this rule cannot follow (%s)" % tstr(sv)[:80], c.loc(sb))
+                if with_name:
+                    g1, _ = guarded(c, sb, lambda g: g.kind == "variant" and g.variant == "Complete")
+                    g2, _ = guarded(c, sb, lambda g: g.kind == "bool" and g.term[0] == "cmp" and g.term[1] == "Eq" and g.truth is True and has_sub(g.term, lambda q: q[0] == "call" and q[1] and q[1].endswith("ShortFileName::csum")) and "Complete" in tstr(g.term))
+                    g3, _ = guarded(c, sb, lambda g: g.kind == "variant" and g.variant == "None" and has_sub(g.term, lambda q: q[0] == "call" and q[1] and q[1].endswith("lfn_contents")))
+                    R.require(g1 and g2 and g3, c, "name-only-if-complete-and-matching", "a long name is reported without (state == Complete && csum == short name checksum) on a non-LFN entry", c.loc(sb))
+                    R.require("as_str" in tstr(sv), c, "name=buffer", "the reported long name is not lfn_buffer.as_str()", c.loc(sb))
         # reset after every callback
         resets = [(b, i) for b, i, s in c.stmts() if s["k"] == "Assign" and (lambda v: v[0] == "agg" and v[2] and v[2].endswith("SeqState::Waiting"))(c.term_of_rvalue(s["rv"], b))]
         clears = [b for b, t in c.calls() if call_matches(t, ("LfnBuffer::clear",))]
